@@ -19,11 +19,11 @@ func init() {
 
 func releaseFuncs(p *Prog) map[*types.Func]int {
 	return map[*types.Func]int{
-		p.FuncObj(Root+"/socket", "PutMessage"):            0,
-		p.MethodObj(Root, "peer", "putContext"):            0,
-		p.FuncObj(Root+"/utils", "ReleaseArgs"):            0,
-		p.FuncObj(Root+"/utils", "ReleaseByteBuffer"):      0,
-		p.MethodObj(Root+"/utils", "BufferPool", "Put"):    0,
+		p.FuncObj(Root+"/socket", "PutMessage"):         0,
+		p.MethodObj(Root, "peer", "putContext"):         0,
+		p.FuncObj(Root+"/utils", "ReleaseArgs"):         0,
+		p.FuncObj(Root+"/utils", "ReleaseByteBuffer"):   0,
+		p.MethodObj(Root+"/utils", "BufferPool", "Put"): 0,
 	}
 }
 
